@@ -894,6 +894,9 @@ func init() {
 							s2 := append([]fr.Element(nil), sib...)
 							var one fr.Element
 							one.SetOne()
+							if r.Intn(2) == 0 {
+								one.Neg(&one) // either direction: a one-sided comparison must not hide it
+							}
 							s2[r.Intn(len(s2))].Add(&s2[r.Intn(len(s2))], &one)
 							if d, _ := ref.MerkleFold(leaves[idx], uint64(idx)&(1<<uint(lowBits)-1), s2); !d.Equal(&tree.Cap[idx>>uint(lowBits)]) {
 								ios = append(ios, compiledIO{In: mk(idx, leaves[idx], s2, tree.Cap, -1), Reject: true})
@@ -969,6 +972,9 @@ func init() {
 							}
 							var one fr.Element
 							one.SetOne()
+							if r.Intn(2) == 0 {
+								one.Neg(&one) // either direction: a one-sided comparison must not hide it
+							}
 							k := r.Intn(len(sb))
 							sb[k].Add(&sb[k], &one)
 						case "indexbit":
@@ -981,10 +987,16 @@ func init() {
 						case "capsel":
 							var one fr.Element
 							one.SetOne()
+							if r.Intn(2) == 0 {
+								one.Neg(&one) // either direction: a one-sided comparison must not hide it
+							}
 							cap[capIdx].Add(&cap[capIdx], &one)
 						case "capunsel":
 							var one fr.Element
 							one.SetOne()
+							if r.Intn(2) == 0 {
+								one.Neg(&one) // either direction: a one-sided comparison must not hide it
+							}
 							k := (int(capIdx) + 1 + r.Intn(15)) % 16
 							cap[k].Add(&cap[k], &one)
 						case "swaplr":
